@@ -149,7 +149,7 @@ def gen_sep(rng, big):
 
 
 CLOUD_STYLES = ['scattered', 'scattered', 'scattered', 'lattice', 'lattice', 'lattice', 'partial-lattice',
-                'lines', 'shared-coords', 'collinear']
+                'lines', 'shared-coords', 'collinear', 'scattered3d', 'scattered3d']
 LATTICE_ORDERS = ['native', 'y-fastest', 'rows-reversed', 'columns-reversed', 'both-reversed', 'shuffled', 'y-fastest-reversed']
 
 
@@ -162,6 +162,17 @@ def gen_cloud(rng, big, style):
     """Point clouds stored as UNSTRUCTURED grids.  Besides generic scattered points: full lattices in every storage
     order, lattices with holes, points on a few lines, points sharing coordinates per axis, fully collinear clouds."""
     info = {}
+    if style == 'scattered3d':
+        # 3-D scattered cloud (LinearNDInterpolator / Delaunay in 3-D: tetrahedra), some points sharing coordinates
+        n = int(rng.integers(5, 15 if big else 11))
+        while True:
+            pts = sorted(set((dyadic(rng, -2, 2, 2), dyadic(rng, -2, 2, 2), dyadic(rng, -2, 2, 1)) for _ in range(n)))
+            pts = [list(q) for q in pts]
+            a = np.array(pts, dtype=float)
+            if len(pts) >= 5 and np.linalg.matrix_rank(a[1:] - a[0]) == 3:
+                break
+        rng.shuffle(pts)
+        return [list(map(float, q)) for q in pts], info
     if style == 'scattered':
         n = int(rng.integers(4, 25 if big else 13))
         while True:
@@ -251,10 +262,11 @@ def gen_uns(rng, big):
     style = str(rng.choice(CLOUD_STYLES))
     pts, info = gen_cloud(rng, big, style)
     affine = bool(rng.random() < 0.6)
+    nd = len(pts[0])
     case = {'fam': 'uns', 'pts_src': pts, 'cloud': style}
     case.update(info)
     if affine:
-        c0, c = affine_coeffs(rng, 2)
+        c0, c = affine_coeffs(rng, nd)
         case['affine'] = [c0, c]
     else:
         case['vals'] = [dyadic(rng, -8, 8, 3) for _ in range(len(pts))]
@@ -269,14 +281,20 @@ def gen_uns(rng, big):
             if u < 0.2:
                 ev.append(list(pts[int(rng.integers(0, len(pts)))]))          # a sample point
             elif u < 0.85:
-                i, j, k = [int(t) for t in rng.integers(0, len(pts), 3)]
-                # weights a/8, b/8, (8-a-b)/8 >= 0
-                a = int(rng.integers(0, 9)); b = int(rng.integers(0, 9 - a)); c = 8 - a - b
-                ev.append([(a * pts[i][0] + b * pts[j][0] + c * pts[k][0]) / 8.0, (a * pts[i][1] + b * pts[j][1] + c * pts[k][1]) / 8.0])
+                # a convex combination of nd+1 sample points with weights k/8 >= 0 (zeros: faces, edges, vertices)
+                idx = [int(t) for t in rng.integers(0, len(pts), nd + 1)]
+                w, left = [], 8
+                for _ in range(nd):
+                    w.append(int(rng.integers(0, left + 1)))
+                    left -= w[-1]
+                w.append(left)
+                ev.append([sum(wk * pts[i][t] for wk, i in zip(w, idx)) / 8.0 for t in range(nd)])
             else:
-                ev.append([dyadic(rng, -5, 5, 3), dyadic(rng, -5, 5, 3)])     # anywhere (maybe outside the hull)
+                ev.append([dyadic(rng, -5, 5, 3) for _ in range(nd)])     # anywhere (maybe outside the hull)
     case['pts'] = ev
-    if style == 'scattered':
+    if style == 'scattered3d':
+        case['route'] = str(rng.choice(['dispatch', 'dispatch-fill0', 'unstructured-default', 'unstructured-fill0']))
+    elif style == 'scattered':
         case['route'] = str(rng.choice(['dispatch', 'unstructured-default', 'unstructured-fill0']))
     else:
         # structured / degenerate clouds always go through the public dispatching front ends
@@ -513,6 +531,41 @@ def run_sep(case):
     return bad, lines, cmps, info
 
 
+def solve_bary(verts, fp):
+    """exact barycentric coordinates (Fractions) of `fp` in the d-simplex `verts` (d+1 points) by Gaussian elimination
+    — deliberately not Cramer's rule, which is what the Lean model runs; None for a degenerate simplex"""
+    d = len(fp)
+    v0 = verts[0]
+    # unknowns l_1..l_d:  sum_i l_i (v_i - v_0) = fp - v_0
+    A = [[verts[i + 1][r] - v0[r] for i in range(d)] + [fp[r] - v0[r]] for r in range(d)]
+    for col in range(d):
+        piv = next((r for r in range(col, d) if A[r][col] != 0), None)
+        if piv is None:
+            return None
+        A[col], A[piv] = A[piv], A[col]
+        A[col] = [x / A[col][col] for x in A[col]]
+        for r in range(d):
+            if r != col and A[r][col] != 0:
+                f = A[r][col]
+                A[r] = [x - f * y for x, y in zip(A[r], A[col])]
+    sol = [A[r][d] for r in range(d)]
+    return [1 - sum(sol)] + sol
+
+
+def hull_location(lam, ids, facets):
+    """the same exact rule as the Lean model's `hullLoc` (the two are compared through the op simplex-loc): outside the
+    simplex if some coordinate is negative; on the boundary of the hull if all vertices that carry weight belong to one
+    hull facet; inside otherwise"""
+    if any(x < 0 for x in lam):
+        return 'outside'
+    supp = set(i for x, i in zip(lam, ids) if x != 0)
+    return 'boundary' if any(supp <= set(f) for f in facets) else 'inside'
+
+
+def nat_lists(ls):
+    return ';'.join('[' + ','.join(str(int(v)) for v in l) + ']' for l in ls) if ls else '-'
+
+
 def find_scipy_interp(fn):
     for c in (fn.__closure__ or []):
         try:
@@ -528,7 +581,8 @@ def run_uns(case):
     import hcipy
     bad, lines, cmps = [], [], []
     src = case['pts_src']
-    grid = hcipy.CartesianGrid(hcipy.UnstructuredCoords([np.array([p[0] for p in src]), np.array([p[1] for p in src])]))
+    nd = len(src[0])
+    grid = hcipy.CartesianGrid(hcipy.UnstructuredCoords([np.array([p[k] for p in src]) for k in range(nd)]))
     if 'affine' in case:
         c0, c = case['affine']
         vals = [float(aff(c0, c, p)) for p in src]
@@ -539,7 +593,7 @@ def run_uns(case):
     if case.get('eval_self'):
         egrid = grid
     else:
-        egrid = hcipy.CartesianGrid(hcipy.UnstructuredCoords([np.array([p[0] for p in pts]), np.array([p[1] for p in pts])]))
+        egrid = hcipy.CartesianGrid(hcipy.UnstructuredCoords([np.array([p[k] for p in pts]) for k in range(nd)]))
     route = case['route']
     got = None
     collinear = case.get('cloud') == 'collinear'
@@ -570,55 +624,55 @@ def run_uns(case):
                 got = None
         except Exception as e:  # noqa
             bad.append(('unstructured-linear', 'linear interpolator on an unstructured grid raised %s' % type(e).__name__))
-        sci = find_scipy_interp(interp)
-        tri = sci.tri if sci is not None else None
+        try:
+            sci = find_scipy_interp(interp)
+            tri = sci.tri if sci is not None else None
+        except Exception:  # noqa
+            tri = None
     inside, boundary = [], []
+    nloc = 0
     if not collinear:
         have_scipy_object = tri is not None
         if tri is None:
             import scipy.spatial
             tri = scipy.spatial.Delaunay(np.array(src, dtype=float))
         simp = tri.find_simplex(np.array(pts, dtype=float))
-        # exact location of every evaluation point with respect to the convex hull (Fractions)
+        # exact location of every evaluation point with respect to the triangulation and the convex hull (Fractions):
+        # the simplex SciPy found (or, where it answers -1, any simplex that contains the point exactly), the barycentric
+        # coordinates in it, and the hull facets `Delaunay.convex_hull`
         fsrc2 = [frl(p) for p in src]
         simplices = [[int(v) for v in sx] for sx in tri.simplices]
-        hull_edges = [[int(v) for v in e] for e in tri.convex_hull]
+        facets = [[int(v) for v in e] for e in tri.convex_hull]
+        facets_tok = nat_lists(facets)
 
-        def bary(sx, fp):
-            (ax, ay), (bx, by), (cx, cy) = [fsrc2[v] for v in sx]
-            det = (bx - ax) * (cy - ay) - (cx - ax) * (by - ay)
-            if det == 0:
-                return None
-            l1 = ((fp[0] - ax) * (cy - ay) - (cx - ax) * (fp[1] - ay)) / det
-            l2 = ((bx - ax) * (fp[1] - ay) - (fp[0] - ax) * (by - ay)) / det
-            return [1 - l1 - l2, l1, l2]
-
-        def in_closed_hull(fp):
-            for sx in simplices:
-                lam = bary(sx, fp)
+        def locate(p, sx):
+            """(location, simplex ids, barycentric coordinates) of p; location 'outside' = outside the closed hull"""
+            fp = frl(p)
+            cands = ([simplices[int(sx)]] if int(sx) >= 0 else []) + simplices
+            for ids in cands:
+                lam = solve_bary([fsrc2[v] for v in ids], fp)
                 if lam is not None and all(x >= 0 for x in lam):
-                    return True
-            return False
+                    return hull_location(lam, ids, facets), ids, lam
+            return 'outside', None, None
 
-        def on_hull_boundary(fp):
-            for i, j in hull_edges:
-                (ax, ay), (bx, by) = fsrc2[i], fsrc2[j]
-                cr = (bx - ax) * (fp[1] - ay) - (by - ay) * (fp[0] - ax)
-                if cr == 0:
-                    t = (fp[0] - ax) * (bx - ax) + (fp[1] - ay) * (by - ay)
-                    if 0 <= t <= (bx - ax) ** 2 + (by - ay) ** 2:
-                        return True
-            return False
-
-        inside = [in_closed_hull(frl(p)) for p in pts]
-        boundary = [ins and on_hull_boundary(frl(p)) for ins, p in zip(inside, pts)]
+        located = [locate(p, sx) for p, sx in zip(pts, simp)]
+        inside = [loc != 'outside' for loc, _, _ in located]
+        boundary = [loc == 'boundary' for loc, _, _ in located]
+        for p, (loc, ids, lam) in zip(pts, located):
+            if ids is not None:
+                # the Lean model classifies the same point from the same simplex (op simplex-loc: `baryN`, `hullLoc`)
+                lines.append('C18 simplex-loc %s %s %s %s' % (rat_lists([src[v] for v in ids]), '[' + ','.join(str(v) for v in ids) + ']', facets_tok, rat_list(p)))
+                cmps.append(('simplex-loc', (loc, lam), {}))
+                nloc += 1
         fillv = 0.0 if route in ('unstructured-fill0', 'dispatch-fill0') else None
         if got is not None:
             lookup = {tuple(p): v for p, v in zip(src, vals)}
             reported = set()
-            for g, p, ins, bnd, sx in zip(got, pts, inside, boundary, simp):
-                # the recorded SciPy finding has a precise signature: a point on the hull boundary that SciPy's point
-                # location reports outside, and that therefore gets the fill value; anything else is a plain failure
+            for g, p, ins, bnd, sx, (loc, ids, lam) in zip(got, pts, inside, boundary, simp, located):
+                # the recorded SciPy finding has a precise signature, decided in exact arithmetic (and compared with the
+                # Lean model's `hullLoc`): a point ON the boundary of the convex hull that SciPy's point location reports
+                # outside, and that therefore gets the fill value; anything else — in particular a fill value at a point
+                # strictly inside the hull — is a plain failure
                 is_fill = (g != g) if fillv is None else (g == fillv)
                 key = 'unstructured-linear-hull-boundary' if (bnd and int(sx) < 0 and is_fill) else 'unstructured-linear'
                 what = None
@@ -626,11 +680,11 @@ def run_uns(case):
                     if 'affine' in case:
                         w = float(aff(c0, c, p))
                         if not abs(g - w) <= TOL * max(1.0, abs(w)):
-                            what = 'affine field not reproduced at %r %s of a scattered grid: got %r, expected %r' % (
-                                p, 'on the boundary of the hull' if bnd else 'inside the hull', g, w)
+                            what = 'affine field not reproduced at %r %s of a scattered %d-D grid: got %r, expected %r' % (
+                                p, 'on the boundary of the hull' if bnd else 'inside the hull', nd, g, w)
                     if what is None and tuple(p) in lookup and not abs(g - lookup[tuple(p)]) <= TOL * max(1.0, abs(lookup[tuple(p)])):
-                        what = 'sample value not returned at the sample point %r%s of a scattered grid: got %r' % (
-                            p, ' (a vertex of the hull)' if bnd else '', g)
+                        what = 'sample value not returned at the sample point %r%s of a scattered %d-D grid: got %r' % (
+                            p, ' (on the boundary of the hull)' if bnd else '', nd, g)
                     if what is None and int(sx) < 0:
                         what = 'point %r %s got the fill value' % (p, 'on the boundary of the hull' if bnd else 'inside the hull')
                 else:
@@ -641,9 +695,13 @@ def run_uns(case):
                     bad.append((key, what))
                 if int(sx) >= 0 and what is None and (have_scipy_object or case.get('cloud', 'scattered') == 'scattered'):
                     vs = [int(v) for v in tri.simplices[int(sx)]]
-                    t = [src[v][k] for v in vs for k in (0, 1)]
-                    lines.append('C18 lin-tri %s %s %s' % (rat_list(t), rat_list([vals[v] for v in vs]), rat_list(p)))
-                    cmps.append(('lin-tri', [g], {'nan': None}))
+                    if nd == 2:
+                        t = [src[v][k] for v in vs for k in (0, 1)]
+                        lines.append('C18 lin-tri %s %s %s' % (rat_list(t), rat_list([vals[v] for v in vs]), rat_list(p)))
+                        cmps.append(('lin-tri', [g], {'nan': None}))
+                    # the general executed interpolant (`linearSimplex`, any dimension) on the simplex SciPy found
+                    lines.append('C18 lin-simplex %s %s %s' % (rat_lists([src[v] for v in vs]), rat_list([vals[v] for v in vs]), rat_list(p)))
+                    cmps.append(('lin-simplex', [g], {'nan': None}))
     # ---- nearest
     gotn = None
     try:
@@ -672,7 +730,8 @@ def run_uns(case):
                 break
         lines.append('C18 near-uns %s %s %s' % (rat_lists(src), rat_list(vals), rat_lists(pts)))
         cmps.append(('near-uns', gotn, {}))
-    info = {'n_src': len(src), 'n_inside': sum(inside), 'n_outside': len(inside) - sum(inside), 'npts': len(pts), 'n_boundary': sum(boundary)}
+    info = {'n_src': len(src), 'n_inside': sum(inside), 'n_outside': len(inside) - sum(inside), 'npts': len(pts), 'n_boundary': sum(boundary),
+            'nd': nd, 'n_located': nloc}
     return bad, lines, cmps, info
 
 
@@ -1360,6 +1419,12 @@ DIRECTED = [
     {'fam': 'uns', 'pts_src': [[0.75, 2.25], [4.0, 2.375], [-0.625, 0.375], [0.375, 3.875], [-0.625, -1.25], [1.875, -3.5], [1.625, -0.25],
                                [2.0, -3.125], [-1.25, -1.125], [-3.5, 1.5], [-0.5, -3.125]], 'affine': [2.0, [1.0, -3.0]],
      'pts': [[-4.125, 3.0], [1.875, -3.5], [-0.5, 2.0], [0.75, -1.734375], [1.625, -0.25], [0.859375, 1.78125]], 'route': 'unstructured-fill0'},
+    # 3-D scattered cloud (tetrahedra): inside, a vertex, on a hull facet, on a hull edge, outside
+    {'fam': 'uns', 'cloud': 'scattered3d', 'pts_src': [[0.0, 0.0, 0.0], [2.0, 0.0, 0.0], [0.0, 4.0, 0.0], [0.0, 0.0, 8.0], [0.5, 1.0, 1.0], [2.0, 4.0, 8.0]],
+     'affine': [1.0, [2.0, 3.0, -0.5]], 'pts': [[0.25, 0.5, 2.0], [0.5, 1.0, 1.0], [0.5, 1.0, 0.0], [1.0, 0.0, 0.0], [0.75, 1.5, 3.0], [-1.0, 0.0, 0.0]],
+     'route': 'unstructured-fill0'},
+    {'fam': 'uns', 'cloud': 'scattered3d', 'pts_src': [[0.0, 0.0, 0.0], [2.0, 0.0, 0.0], [0.0, 4.0, 0.0], [0.0, 0.0, 8.0], [0.5, 1.0, 1.0], [2.0, 4.0, 8.0]],
+     'vals': [1.0, -2.0, 4.0, 0.5, 3.0, 8.0], 'pts': [[0.25, 0.5, 2.0], [0.5, 1.0, 1.0], [1.0, 2.0, 4.0], [3.0, 3.0, 3.0]], 'route': 'dispatch'},
     # non-dyadic physical scale: the midpoint of a cell is a near-tie for the nearest interpolator (float and exact decision differ)
     {'fam': 'scale', 'S': 1e-08, 'src': {'kind': 'separated', 'axes': [[-1.125e-08, -6.25e-09, 1e-08], [-2.25e-08, -2.1250000000000002e-08]]},
      'values': {'affine': [-1.5, [-275000000.0, 50000000.0]]},
@@ -1427,6 +1492,8 @@ def check_case(ctx, case, all_lines, index):
         ctx.count('uns:points_inside_hull', info['n_inside'])
         ctx.count('uns:points_outside_hull', info['n_outside'])
         ctx.count('uns:points_on_hull_boundary', info['n_boundary'])
+        ctx.count('uns:ndim=%d' % info.get('nd', 2))
+        ctx.count('uns:points_located_exactly', info.get('n_located', 0))
         ctx.count('uns:' + ('affine' if 'affine' in case else 'random-values'))
         sig = (fam, case.get('cloud', 'scattered'), case.get('order'), info['n_src'], 'affine' in case, case['route'], info['npts'])
     elif fam == 'bin' and 'ss' in case:
@@ -1490,11 +1557,23 @@ def parse_vals(tok):
 
 
 def compare_model(ctx, out, case, cmps, base, had_bad):
-    if had_bad:
-        return
     for k, (stream, got, opt) in enumerate(cmps):
+        if had_bad and stream != 'simplex-loc':
+            # the oracle already failed on this case; only the exact point location (which the key of the violation
+            # rests on) is still compared with the model
+            continue
         resp = out[base + k]
         ctx.traces_validated += 1
+        if stream == 'simplex-loc':
+            loc, lam = got
+            want = 'ok %s %s' % (loc, '[' + ','.join(str(x.numerator) if x.denominator == 1 else '%d/%d' % (x.numerator, x.denominator) for x in lam) + ']')
+            mine = resp.split()
+            ok = len(mine) == 3 and mine[1] == loc and parse_vals(mine[2]) == list(lam)
+            ctx.count('simplex-loc:' + loc)
+            if not ok:
+                ctx.disagree('C18 simplex-loc', {'case': case, 'model': resp, 'harness': want})
+                return
+            continue
         if not resp.startswith('ok'):
             ctx.disagree('C18 ' + stream, {'case': case, 'model': resp, 'impl': got})
             return
@@ -1526,7 +1605,7 @@ def compare_model(ctx, out, case, cmps, base, had_bad):
                 return
             ctx.count('near-uns:ties', sum(1 for grp in groups if len(set(grp)) > 1))
             continue
-        if stream == 'lin-tri':
+        if stream in ('lin-tri', 'lin-simplex'):
             want = [None if body == 'nan' else Fraction(body)]
             if want[0] is None:
                 ctx.boundary_skipped += 1       # SciPy put the point into a degenerate (zero-area) simplex
